@@ -78,6 +78,7 @@ LastRowOK(e) ==
 
 CaseOK(e) ==
   /\ e.same_stream /\ e.same_file /\ e.len_buffer > 0
+  /\ e.rebuffer_fresh                                      \* print_to_buffer on a buffer target starts an empty buffer
   /\ e.reread_same                                         \* reading the buffer does not empty it
   /\ e.two_solves_same                                     \* after a second solve buffer and stream both hold both logs
   /\ e.same_short_stream                                   \* a stream accepting a few bytes per call gets every byte
